@@ -16,6 +16,8 @@ def parsePair (s : String) : Nat × Nat :=
   | [a, b] => (natOf a, natOf b)
   | _ => (0, 0)
 
+def optNat (s : String) : Option Nat := if s == "-" || s == "" then none else s.toNat?
+
 def parseExch (p : String) : Exch :=
   let fs := words p
   let b := parsePair (getKey fs "b")
@@ -23,7 +25,10 @@ def parseExch (p : String) : Exch :=
   { method := getKey fs "m", path := getKey fs "p", h := parseKVs (getKey fs "h"),
     bLen := b.1, bSeed := b.2, t := parseKVs (getKey fs "t"), status := natOf (getKey fs "st"),
     info := getKey fs "i", rh := parseKVs (getKey fs "rh"), rbLen := rb.1, rbSeed := rb.2,
-    rt := parseKVs (getKey fs "rt") }
+    rt := parseKVs (getKey fs "rt"), flush := getKey fs "fl" == "1", gz := getKey fs "gz" == "1",
+    bf := optNat (getKey fs "bf"), tw := optNat (getKey fs "tw") }
+
+abbrev Fail := String × String × String
 
 def step (_ : Unit) (op impl : String) : Unit × StepOut :=
   match op.splitOn " | " with
@@ -32,16 +37,46 @@ def step (_ : Unit) (op impl : String) : Unit × StepOut :=
     if !hd.startsWith "conn" || exs.isEmpty then ((), { model := "bad-op" })
     else
       let es := exs.map parseExch
-      let expected := es.map fun e => (e.srvView, e.cliView)
-      let model := " || ".intercalate (expected.map fun x => x.1 ++ " | " ++ x.2)
       let got := (impl.splitOn " || ").map fun s => match s.splitOn " | " with
         | [a, b] => (a, b)
         | _ => (s, "")
-      let fails := ((List.range expected.length).map fun i =>
+      let implB := fun (i : Nat) => getKey (words (got.getD i ("", "")).1) "b"
+      let implCl := fun (i : Nat) => getKey (words (got.getD i ("", "")).2) "cl"
+      -- an exchange whose request body source fails: whether the handler runs at all, how much it reads
+      -- and what the client gets back depend on timing — both views are witnesses, judged below
+      let expected := (List.range es.length).map fun i =>
+        let e := es.getD i {}
+        if e.bf.isSome then got.getD i ("", "") else (e.srvView (implB i), e.cliView (implCl i))
+      let model := " || ".intercalate (expected.map fun x => x.1 ++ " | " ++ x.2)
+      let fails : List Fail := ((List.range expected.length).map fun i =>
+        let e := es.getD i {}
         let ex := expected.getD i ("", "")
         let g := got.getD i ("", "")
         (if ex.1 != g.1 then [("e2e_fields_body_equal", "-", s!"exchange {i}: handler saw `{g.1}` expected `{ex.1}`")] else []) ++
-        (if ex.2 != g.2 then [("e2e_fields_body_equal", "-", s!"exchange {i}: client saw `{g.2}` expected `{ex.2}`")] else [])).flatten
+        (if ex.2 != g.2 then [("e2e_fields_body_equal", "-", s!"exchange {i}: client saw `{g.2}` expected `{ex.2}`")] else []) ++
+        -- the bytes the handler got before the abort are a prefix of the body, at most k of them
+        (match e.bf with
+          | some k =>
+            let (l, _) := parsePair (implB i)
+            let want := (e.srvView (implB i))
+            if g.1 == "srv none" then []      -- the reset overtook the request: the handler never ran
+            else if g.1 != want then
+              [("request_body_abort_is_error", "-", s!"exchange {i}: the request body source failed after {k} of {e.bLen} bytes; handler saw `{g.1}`, it must see a read error (`{want}`)")]
+            else if l > k || implB i != bodySig ((Uquic.Spec.H3Mon.pattern e.bLen e.bSeed).take l) then
+              [("request_body_abort_is_error", "-", s!"exchange {i}: handler read `{implB i}`, not a prefix of at most {k} bytes of the body")]
+            else []
+          | none => []) ++
+        (match (if e.bf.isSome then none else e.autoContentLength) with
+          | some want => if implCl i != want && ex.2 == g.2 then
+              [("auto_content_length", "-", s!"exchange {i} ({e.method}, {e.rbLen} bytes written, no explicit Content-Length, no flush): content-length `{implCl i}`, expected `{want}`")] else []
+          | none => []) ++
+        (match e.tw with
+          | some j =>
+            let gcl := implCl j
+            if gcl != "-" && gcl != "" && implCl i != gcl && !e.flush && !e.gz then
+              [("head_equals_get_headers", "-", s!"exchange {i} is the HEAD twin of GET exchange {j}: content-length `{implCl i}` vs `{gcl}`")]
+            else []
+          | none => [])).flatten
       let fs := words hd
       let tags := [s!"n{es.length}"] ++ (if getKey fs "loss" != "0" then ["loss"] else []) ++
         (if getKey fs "reord" != "0" then ["reorder"] else []) ++
@@ -49,7 +84,10 @@ def step (_ : Unit) (op impl : String) : Unit × StepOut :=
         (if es.any (fun e => !e.t.isEmpty) then ["req-trailers"] else []) ++
         (if es.any (fun e => !e.rt.isEmpty) then ["resp-trailers"] else []) ++
         (if es.any (fun e => e.info != "-") then ["1xx"] else []) ++
-        (if exs.any (fun p => getKey (words p) "gz" == "1") then ["gzip"] else []) ++
+        (if es.any (fun e => e.gz) then ["gzip"] else []) ++
+        (if es.any (fun e => e.bf.isSome) then ["body-abort"] else []) ++
+        (if es.any (fun e => e.tw.isSome) then ["head-twin"] else []) ++
+        (if es.any (fun e => e.autoContentLength.isSome) then ["auto-cl"] else []) ++
         (if es.any (fun e => e.bLen > 16000 || e.rbLen > 16000) then ["big-body"] else [])
       ((), { model := model, tags := tags, fails := fails })
 
